@@ -49,7 +49,12 @@ impl SuperficialLossInfo {
     ) -> GreaterEqualZeroDecimal {
         let zero = GreaterEqualZeroDecimal::zero();
         let mut total = GreaterEqualZeroDecimal::zero();
-        for af in &self.buying_affiliates {
+        // Summed in a fixed order. Decimal addition can round in the last digit,
+        // so the total (shown in the SfLA memo, and the denominator of the
+        // adjustment ratios) would otherwise depend on the HashSet's iteration order.
+        let mut afs: Vec<&Affiliate> = self.buying_affiliates.iter().collect();
+        afs.sort_by(|a, b| a.id().cmp(b.id()));
+        for af in afs {
             total +=
                 *self.active_affiliate_spladj_shares_at_eop.get(af).unwrap_or(&zero);
         }
